@@ -164,15 +164,29 @@ def fill_exact(world: World, f: Func, call: ast.Call) -> str:
             return f"a normal return of {f.name} leaves the read loop before {v} is full (break/return inside the loop): a truncated buffer is handed on silently"
     if nret == 0:
         return f"{f.name} has no normal return"
+    # shape B counts from the initial value of its offset variable: a parameter (the window starts there) or a local 0
+    start_b: t.Optional[ast.expr] = None
+    if off_name is not None:
+        inside_b = {id(n) for n in ast.walk(loop)}
+        if off_name in f.params:
+            if any(isinstance(n, (ast.Assign, ast.AnnAssign)) and off_name in [unparse(x) for x in (n.targets if isinstance(n, ast.Assign) else [n.target])] for n in body_nodes(f.node)) or any(isinstance(n, ast.AugAssign) and unparse(n.target) == off_name and id(n) not in inside_b for n in body_nodes(f.node)):
+                return f"the offset parameter {off_name} is rebound outside the read loop"
+            start_b = ast.Name(id=off_name, ctx=ast.Load())
+        else:
+            inits = [n for n in body_nodes(f.node) if isinstance(n, ast.Assign) and id(n) not in inside_b and off_name in [unparse(x) for x in n.targets]]
+            if len(inits) != 1 or not (isinstance(inits[0].value, ast.Constant) and inits[0].value.value == 0):
+                return f"the read loop counts from {off_name}, which does not start at 0"
     if v not in f.params:
         reg = _derived_view(f, v, loop)
+        if reg is not None and start_b is not None:
+            reg = (reg[0], start_b) if reg[1] is None else None
         if reg is not None:
             REGIONS[f.qual] = reg
             return f"ok:{f.name}({reg[0]}) fills {reg[0]}[{unparse(reg[1]) if reg[1] is not None else ''}:] completely or raises ({cert[0].why})"
         INLINE.setdefault(f.qual, []).append((loop, v, off_name))
         return "ok:inline read-until-complete loop (EOF raises, exit only when full)"
-    REGIONS[f.qual] = (v, None)
-    return f"ok:{f.name}({v}) fills {v} completely or raises ({cert[0].why})"
+    REGIONS[f.qual] = (v, start_b)
+    return f"ok:{f.name}({v}) fills {v}[{unparse(start_b) if start_b is not None else ''}:] completely or raises ({cert[0].why})"
 
 
 # helper -> (buffer parameter, start offset expression over the helper's parameters or None): the window the helper fills
@@ -210,9 +224,14 @@ def _derived_view(f: Func, v: str, loop: ast.While) -> t.Optional[t.Tuple[str, t
     parameter buffer - memoryview(P), P[a:], memoryview(P)[a:] with `a` a parameter or constant - return (P, a)."""
     inside = {id(n) for n in ast.walk(loop)}
     defs = [n for n in body_nodes(f.node) if isinstance(n, (ast.Assign, ast.AnnAssign)) and id(n) not in inside and v in [unparse(x) for x in (n.targets if isinstance(n, ast.Assign) else [n.target])]]
-    if len(defs) != 1 or defs[0].value is None or defs[0] not in f.node.body:
+    # `with memoryview(P) as v:` at the top of the function is a definition of v as well (the loop lives in its body)
+    withs = [i.context_expr for n in f.node.body if isinstance(n, ast.With) for i in n.items if isinstance(i.optional_vars, ast.Name) and i.optional_vars.id == v]
+    if not defs and len(withs) == 1:
+        e: ast.expr = withs[0]
+    elif len(defs) != 1 or defs[0].value is None or defs[0] not in f.node.body or withs:
         return None
-    e: ast.expr = defs[0].value
+    else:
+        e = defs[0].value
     off: t.Optional[ast.expr] = None
     while True:
         if isinstance(e, ast.Call) and isinstance(e.func, ast.Name) and e.func.id == "memoryview" and len(e.args) == 1 and not e.keywords:
